@@ -23,6 +23,7 @@ package flows
 //@   ensures ghost.evlog == old(ghost.evlog) ++ [arg0]
 
 // ---- C03: URN list operations
+//@ pred urnsOK(l URNList) bool := forall k int :: 0 <= k && k < len(l) ==> l[k] != nil
 //@ pred urnIn(l URNList, ident urns.URN) bool := exists k int :: 0 <= k && k < len(l) && l[k].urn.Identity() == ident
 
 //@ func (c *Contact) HasURN
@@ -45,6 +46,7 @@ package flows
 //@   ensures [result] result <==> !old(urnIn(c.urns, urn.Normalize().Identity()))
 //@   ensures [unchanged] !result ==> c.urns == old(c.urns)
 //@   ensures [appended] result ==> (len(c.urns) == old(len(c.urns)) + 1 && (forall k int :: 0 <= k && k < old(len(c.urns)) ==> c.urns[k] == old(c.urns)[k]) && c.urns[len(c.urns) - 1] != nil && fresh(c.urns[len(c.urns) - 1]) && c.urns[len(c.urns) - 1].urn == urn)
+//@   ensures [urns_ok] old(urnsOK(c.urns)) ==> urnsOK(c.urns)
 
 //@ func (c *Contact) RemoveURN
 //@   requires c != nil && urn.Normalize() == urn
@@ -52,7 +54,9 @@ package flows
 //@   ensures [result] result <==> old(urnIn(c.urns, urn.Identity()))
 //@   ensures [unchanged] !result ==> c.urns == old(c.urns)
 //@   ensures [removed] result ==> (len(c.urns) < old(len(c.urns)) && !urnIn(c.urns, urn.Identity()))
+//@   ensures [urns_ok] old(urnsOK(c.urns)) ==> urnsOK(c.urns)
 //@ loop 1
+//@   invariant old(urnsOK(c.urns)) ==> urnsOK(newURNs)
 //@   invariant len(newURNs) <= $i + 1
 //@   invariant (exists k int :: 0 <= k && k <= $i && old(c.urns)[k].urn.Identity() == urn.Identity()) ==> len(newURNs) <= $i
 //@   invariant forall j int :: 0 <= j && j < len(newURNs) ==> newURNs[j].urn.Identity() != urn.Identity()
@@ -66,6 +70,53 @@ package flows
 //@ loop 1
 //@   invariant forall k int :: 0 <= k && k <= $i ==> raw[k] == l[k].urn
 //@   invariant len(raw) == len(l)
+
+// ---- C03: preferred channel (channel modifier): "modified" is reported iff the raw URN list changed
+//@ pred sameRaw(a URNList, b URNList) bool := len(a) == len(b) && (forall k int :: 0 <= k && k < len(a) ==> a[k].urn == b[k].urn)
+
+//@ func (c *Channel) HasRole
+//@   assigns nothing
+//@   havocs Contains
+
+//@ func (c *Channel) SupportsScheme
+//@   assigns nothing
+//@   havocs Contains
+
+//@ func (u *ContactURN) SetChannel
+//@   requires u != nil
+//@   assigns u.urn, u.channel
+//@   havocs ToParts, ParseQuery, Set, Del, NewFromParts, UUID
+//@   ensures [channel_set] u.channel == channel
+
+//@ func URNList.clone
+//@   requires urnsOK(l)
+//@   assigns nothing
+//@   ensures [len] len(result) == len(l)
+//@   ensures [elems] forall k int :: 0 <= k && k < len(l) ==> (result[k] != nil && fresh(result[k]) && result[k].urn == l[k].urn)
+//@ loop 1
+//@   invariant len(urns) == len(l)
+//@   invariant forall k int :: 0 <= k && k <= $i ==> (urns[k] != nil && fresh(urns[k]) && urns[k].urn == l[k].urn)
+
+//@ func URNList.Equal
+//@   requires urnsOK(l) && urnsOK(other)
+//@   assigns nothing
+//@   ensures [raw_equal] result <==> sameRaw(l, other)
+//@ loop 1
+//@   invariant forall k int :: 0 <= k && k <= $i ==> l[k].urn == other[k].urn
+
+//@ func (c *Contact) UpdatePreferredChannel
+//@   requires c != nil && urnsOK(c.urns)
+//@   assigns c.urns, ContactURN::urn, ContactURN::channel
+//@   havocs Scheme
+//@   ensures [reports_change] result <==> !(len(c.urns) == old(len(c.urns)) && (forall k int :: 0 <= k && k < len(c.urns) ==> c.urns[k].urn == old(c.urns[k].urn)))
+//@   ensures [urns_ok] urnsOK(c.urns)
+//@ loop 1
+//@   invariant c.urns == old(c.urns) && len(oldURNs) == len(c.urns)
+//@   invariant forall k int :: 0 <= k && k < len(oldURNs) ==> (oldURNs[k] != nil && fresh(oldURNs[k]) && oldURNs[k].urn == old(c.urns[k].urn))
+//@ loop 2
+//@   invariant c.urns == old(c.urns) && len(oldURNs) == len(c.urns)
+//@   invariant forall k int :: 0 <= k && k < len(oldURNs) ==> (oldURNs[k] != nil && fresh(oldURNs[k]) && oldURNs[k].urn == old(c.urns[k].urn))
+//@   invariant urnsOK(priorityURNs) && urnsOK(otherURNs)
 
 // ---- C03 / C06: group lists and query based groups
 //@ pred groupsOK(l *GroupList) bool := l != nil && (forall k int :: 0 <= k && k < len(l.groups) ==> l.groups[k] != nil)
@@ -157,10 +208,9 @@ package flows
 //@ pred sameInstant(a *types.XDateTime, b *types.XDateTime) bool := (a == nil && b == nil) || (a != nil && b != nil && instant(a.native) == instant(b.native))
 //@ pred sameNumber(a *types.XNumber, b *types.XNumber) bool := (a == nil && b == nil) || (a != nil && b != nil && dec(a.native) == dec(b.native))
 //@ func (v *Value) Equals
-//@   requires (v != nil ==> v.Text != nil) && (o != nil ==> o.Text != nil)
 //@   ensures [both_nil] (v == nil && o == nil) ==> result
 //@   ensures [one_nil] ((v == nil) != (o == nil)) ==> !result
-//@   ensures [facet_by_facet] (v != nil && o != nil) ==> (result <==> (v.Text.native == o.Text.native && sameInstant(v.Datetime, o.Datetime) && sameNumber(v.Number, o.Number) && v.State == o.State && v.District == o.District && v.Ward == o.Ward))
+//@   ensures [facet_by_facet] (v != nil && o != nil && v.Text != nil && o.Text != nil) ==> (result <==> (v.Text.native == o.Text.native && sameInstant(v.Datetime, o.Datetime) && sameNumber(v.Number, o.Number) && v.State == o.State && v.District == o.District && v.Ward == o.Ward))
 
 // parsing a raw field value builds a new Value; it reads the environment and location hierarchy and writes nothing
 // (assumed frame: the computed call graph through the location resolver interface is too coarse)
@@ -170,9 +220,9 @@ package flows
 
 // ---- C06 / C03: what any modifier may write, and the representation invariant of the contact's group list it keeps
 //@ interface Modifier.Apply
-//@   requires arg3 != nil && contactAssetsOK(arg3) && groupsOK(arg3.groups) && noDupUUIDs(arg3.groups.groups)
+//@   requires arg3 != nil && contactAssetsOK(arg3) && groupsOK(arg3.groups) && noDupUUIDs(arg3.groups.groups) && urnsOK(arg3.urns)
 //@   assigns Contact::name, Contact::language, Contact::status, Contact::timezone, Contact::urns, Contact::ticket, GroupList::groups, ContactURN::*, elems[*ContactURN], elems[*Group], map[string]*FieldValue, FieldValue::*, Value::*, Ticket::*, effects(EventCallback)
-//@   ensures [rep] contactAssetsOK(arg3) && groupsOK(arg3.groups) && noDupUUIDs(arg3.groups.groups)
+//@   ensures [rep] contactAssetsOK(arg3) && groupsOK(arg3.groups) && noDupUUIDs(arg3.groups.groups) && urnsOK(arg3.urns)
 
 // when an input was created is fixed when it is built
 //@ interface Input.CreatedOn
